@@ -41,6 +41,7 @@ def scopes(quick: bool):
     return [
         # name, prefix, sigma, maxlen, suffix
         ("P-plain", "", "a: \n#-", 6 if q else 7, ""),
+        ("P-unispace", "", "a: \n\u00a0\u3000\u2003", 5 if q else 6, ""),       # white space of Unicode that YAML treats as ordinary characters
         ("Q1-single", "k: '", "a' \n#:\"", 5 if q else 6, ""),
         ("Q2-double", 'k: "', 'a"\\nx4 \n', 5 if q else 6, ""),
         ("Q3-dq-tab", 'k: "a\n', '\t b"\\\n', 4 if q else 5, ""),       # tabs in the leading white space of continuation lines
